@@ -234,6 +234,29 @@ def read_sig(path):
     return sig
 
 
+def strip_outputs(args):
+    """shard command line without its output-file options (they are re-created for a re-run)"""
+    out = []
+    skip = False
+    for a in args:
+        if skip:
+            skip = False
+            continue
+        if a in ('--out', '--fp', '--replay-out'):
+            skip = True
+            continue
+        out.append(a)
+    return out
+
+
+def rerun_shard(exe, cmd, rundir, tag, env):
+    args = strip_outputs(cmd[1:])
+    rp = os.path.join(rundir, 'fail_%s.tape' % tag)
+    full = [exe] + args + ['--out', os.path.join(rundir, 'rep_%s.json' % tag), '--replay-out', rp]
+    r = subprocess.run(full, stdout=subprocess.PIPE, stderr=subprocess.STDOUT, text=True, env=env)
+    return r.returncode, r.stdout, rp
+
+
 def run_rc_property(pid, cfg, tier, seed, t0):
     """Generic runner for rapidcheck-driven (and registered exhaustive) properties."""
     tc = cfg[tier]
@@ -266,9 +289,11 @@ def run_rc_property(pid, cfg, tier, seed, t0):
         for o in base_opts:
             cmd += ['--opt', o]
         cmd += ['--opt', 'shard=%d' % i, '--opt', 'nshards=%d' % shards, '--opt', 'zseed=%d' % seed, '--opt', 'tmpdir=%s' % rundir]
+        shard_cmds[i] = cmd
         with open(lg, 'w') as lf:
             r = subprocess.run(cmd, stdout=lf, stderr=subprocess.STDOUT, env=env)
         return i, r.returncode, out, fp, rp, lg
+    shard_cmds = {}
     with ThreadPoolExecutor(min(shards, NCPU)) as ex:
         results = list(ex.map(launch, range(shards)))
 
@@ -337,6 +362,31 @@ def run_rc_property(pid, cfg, tier, seed, t0):
         if sig == 'crash':
             sig = crash_signature(last)
         if fails < 3:
+            # The case passes in a fresh process: the failure may depend on state left behind by EARLIER cases of the same
+            # process (a cache, a static table).  Re-run the whole shard (rapidcheck is deterministic for a seed): if it
+            # fails again twice with the same signature the violation is real and the shard is the reproducible unit.
+            again = 0
+            seq_out = ''
+            for k in range(2):
+                c2, o2, rp2 = rerun_shard(exe, shard_cmds[i], rundir, 'seq%d_%d' % (i, k), env)
+                if c2 != 0 and os.path.exists(rp2) and read_sig(rp2).split(':')[0] == read_sig(dest).split(':')[0]:
+                    again += 1
+                    seq_out = open(rp2).read()
+            if again == 2:
+                dest2 = os.path.join(ROOT, 'replays', '%s-%s-seed%d-shard%d.sequence' % (pid, tier, seed, i))
+                with open(dest2, 'w') as f:
+                    f.write('# property %s\n# shard-replay %s\n# signature %s\n' % (pid, json.dumps(strip_outputs(shard_cmds[i][1:])), sig))
+                    f.write('# the failing case passes in a fresh process but fails deterministically after the earlier cases of this shard: the result depends on process history\n')
+                    f.write(seq_out)
+                matched = None
+                for kf in known:
+                    if kf.get('signature') and re.search(kf['signature'], sig + '\n' + seq_out):
+                        matched = kf
+                if matched:
+                    known_hits.append((matched, dest2))
+                else:
+                    violations.append((dest2, sig + ':depends_on_earlier_cases', seq_out))
+                continue
             unreproduced.append(dict(replay=dest, reproduced=fails, signature=sig))
             continue
         matched = None
@@ -483,8 +533,20 @@ def main(argv):
         if not exe:
             return 2
         known = [k for k in load_known() if k.get('property') == pid and k.get('status') == 'known']
-        c, o = replay_once(exe, cfg.get('prop', pid), replay)
-        print(o)
+        m = re.search(r'^# shard-replay (.*)$', open(replay, errors='replace').read(), re.M)
+        if m:
+            rundir = os.path.join(BUILD, 'tmp', 'seq-replay-%d' % os.getpid())
+            os.makedirs(rundir, exist_ok=True)
+            env = dict(os.environ)
+            env.update(ASAN_ENV)
+            args = [a if not a.startswith('tmpdir=') else 'tmpdir=' + rundir for a in json.loads(m.group(1))]
+            c, o, rp2 = rerun_shard(exe, [exe] + args, rundir, 'r', env)
+            if os.path.exists(rp2):
+                o += open(rp2).read()
+            shutil.rmtree(rundir, ignore_errors=True)
+        else:
+            c, o = replay_once(exe, cfg.get('prop', pid), replay)
+        print(o[-6000:])
         if c != 0:
             sig = read_sig(replay)
             for k in known:
